@@ -98,14 +98,19 @@ func C07(c *core.Ctx) {
 	for i := 0; i < n; i++ {
 		managed := i%4 == 1
 		kinds := ""
-		driverRunX(c, "C07", work, i, managed, r, c.Pick(180, 350), i%3 == 0, nil, func(w *drv.World, step string) {
+		withGC := i%3 == 0
+		df := 0.2
+		if withGC {
+			df = 0 // see driverRunX: GC histories write overwrites only (listed C15 finding)
+		}
+		driverRunX(c, "C07", work, i, managed, r, c.Pick(180, 350), withGC, nil, func(w *drv.World, step string) {
 			if step != "end" {
 				return
 			}
 			w.CloseSnapshots()
 			// leave an unflushed memtable and a vlog tail behind
 			for j := 0; j < 5; j++ {
-				_ = w.RandomCommit(0.2, 0.2)
+				_ = w.RandomCommit(df, df)
 			}
 			cycles := 3 + w.R.Intn(3)
 			for cy := 0; cy < cycles; cy++ {
@@ -173,7 +178,7 @@ func C07(c *core.Ctx) {
 					w.DB = db
 				}
 				for j := 0; j < 3; j++ {
-					_ = w.RandomCommit(0.2, 0.2)
+					_ = w.RandomCommit(df, df)
 				}
 			}
 			c.Distinct(fmt.Sprintf("managed=%v|kinds=%s", managed, kinds))
